@@ -108,6 +108,7 @@ NAMES = {
         (r"^t = t\.__forward_value__", "rdval"),
     ],
     "res": [
+        (r"^cached = self\._cache\.get\(t\)", "cget"),
         (r"^if self\.cache and t in self\._cache:", "cchk"),
         (r"^return self\._cache\[t\]", "cget"),
         (r"^for detector, trans, priority in self\._registry:", "iter"),
@@ -455,6 +456,8 @@ def impl(case):
 
 def probe(case):
     """step counts of every thread when it runs first and alone to its end (upper bounds for the enumeration)"""
+    if case.get("op") == "registry":
+        return probe_registry(case)
     prog, threads = case["prog"], case["threads"]
     out = []
     for t in range(len(threads)):
@@ -469,8 +472,123 @@ def probe(case):
     return {"steps": out}
 
 
+# ---- registry cases: a fresh TypeRegistry shared by threads that look up (and, rarely, register) ------
+
+NCLS = 8
+
+
+def _registry_env(case):
+    from utype.utils.base import TypeRegistry
+    from . import c16
+    classes, metas = c16._world()
+    dets = c16._custom_detectors(classes)
+    fns = {}
+
+    def fn(n):
+        if n not in fns:
+            def f(*a, _n=n, **k):
+                return ("conv", _n)
+            f.fid = n
+            fns[n] = f
+        return fns[n]
+
+    reg = TypeRegistry("t", cache=case["cache"], shortcut="__conv__",
+                       default=fn(case["default"]) if case.get("default") is not None else None)
+    for t, f in case.get("shortcut", []):
+        setattr(classes[t], "__conv__", staticmethod(fn(f)))
+
+    def do(op):
+        try:
+            if "res" in op:
+                r = reg.resolve(classes[op["res"]])
+                return {"fn": getattr(r, "fid", -1) if r is not None else None}
+            r = op["reg"]
+            kw = {}
+            if r.get("custom") is not None:
+                kw["detector"] = dets[r["custom"]]
+                cl = []
+            else:
+                cl = [classes[i] for i in r["classes"]]
+                kw["allow_subclasses"] = r["sub"]
+                if r.get("meta") is not None:
+                    kw["metaclass"] = metas[r["meta"]]
+                if r.get("attr") is not None:
+                    kw["attr"] = c16.ATTRS[r["attr"]]
+            reg.register(*cl, priority=r["prio"], **kw)(fn(r["fn"]))
+            return {"reg": True}
+        except _Abort:
+            raise
+        except Exception as e:
+            return {"err": type(e).__name__}
+
+    for r in case.get("init", []):
+        do({"reg": r})
+    return do
+
+
+def _registry_sequential(case, order):
+    """run the operations one after the other in the given global order [(thread, index), ...]"""
+    do = _registry_env(case)
+    outs = [[None] * len(ops) for ops in case["threads"]]
+    for t, k in order:
+        outs[t][k] = do(case["threads"][t][k])
+    post = [do({"res": c}) for c in range(NCLS)]
+    return outs, post
+
+
+def _interleavings(lens):
+    def rec(pos):
+        if all(p == n for p, n in zip(pos, lens)):
+            yield []
+            return
+        for t in range(len(lens)):
+            if pos[t] < lens[t]:
+                nxt = list(pos)
+                nxt[t] += 1
+                for rest in rec(nxt):
+                    yield [(t, pos[t])] + rest
+    return rec([0] * len(lens))
+
+
 def impl_registry(case):
-    raise NotImplementedError
+    threads = case["threads"]
+    lens = [len(ops) for ops in threads]
+    seq_order = [(t, k) for t in range(len(threads)) for k in range(lens[t])]
+    seq_outs, seq_post = _registry_sequential(case, seq_order)
+    alone = [[_registry_sequential(dict(case, threads=[[op]]), [(0, 0)])[0][0][0] for op in ops] for ops in threads]
+    do = _registry_env(case)
+    s = Sched(case["sched"], case.get("mode", "vis"), case.get("points") or ["res", "reg"])
+    outs = s.run([(lambda ops=ops: [do(op) for op in ops]) for ops in threads])
+    post = None if s.deadlock else [do({"res": c}) for c in range(NCLS)]
+    # is there a sequential order of the operations (keeping each thread's own order) with these results?
+    has_reg = any("reg" in op for ops in threads for op in ops)
+    lin = None
+    if not s.deadlock:
+        if not has_reg:
+            lin = (outs == seq_outs and post == seq_post)
+        else:
+            lin = False
+            n = 0
+            for order in _interleavings(lens):
+                n += 1
+                if n > 400:
+                    break
+                o, p = _registry_sequential(case, order)
+                if o == outs and p == post:
+                    lin = True
+                    break
+    return {"outs": outs, "post": post, "seq": seq_outs, "seq_post": seq_post, "alone": alone, "lin": lin,
+            "trace": s.trace, "steps": s.per_thread, "deadlock": s.deadlock}
+
+
+def probe_registry(case):
+    out = []
+    for t in range(len(case["threads"])):
+        do = _registry_env(case)
+        s = Sched([[t, 10 ** 9]], case.get("mode", "vis"), case.get("points") or ["res", "reg"])
+        s.run([(lambda ops=ops: [do(op) for op in ops]) for ops in case["threads"]])
+        out.append(s.per_thread[t])
+    return {"steps": out}
 
 
 # ------------------------------------------------------------------------------------------------
@@ -484,6 +602,8 @@ INF = 10 ** 6
 
 
 def modelled(case) -> bool:
+    if case.get("op") == "registry":
+        return case.get("mode", "vis") == "vis" and sorted(case.get("points") or ["res", "reg"]) == ["reg", "res"]
     if case.get("op", "fwd") != "fwd" or case.get("mode", "vis") != "vis":
         return False
     if sorted(case.get("points") or []) != sorted(FWD_POINTS):
@@ -574,6 +694,45 @@ def gen_threads(rng, prog, n):
     return ths
 
 
+def gen_registry(rng, nthreads=2, with_reg=False):
+    from . import c16
+    init = [c16.gen_reg(rng, 100 + i) for i in range(rng.randint(0, 3))]
+    threads = []
+    for t in range(nthreads):
+        ops = [{"res": rng.randrange(NCLS)} for _ in range(rng.randint(1, 3))]
+        threads.append(ops)
+    if with_reg:
+        t = rng.randrange(nthreads)
+        k = rng.randint(0, len(threads[t]))
+        threads[t] = threads[t][:k] + [{"reg": c16.gen_reg(rng, 500)}] + threads[t][k:]
+        threads[t] = threads[t][:3]
+    # make lookups collide: the same class from several threads
+    if rng.random() < 0.7:
+        c = rng.randrange(NCLS)
+        for ops in threads:
+            for op in ops:
+                if "res" in op and rng.random() < 0.6:
+                    op["res"] = c
+    case = {"op": "registry", "cache": rng.random() < 0.85, "init": init, "threads": threads,
+            "points": ["res", "reg"], "mode": "vis"}
+    if rng.random() < 0.15:
+        case["shortcut"] = [[7, 900]]
+    if rng.random() < 0.2:
+        case["default"] = 990
+    return case
+
+
+_RTABLES = None
+
+
+def registry_tables():
+    global _RTABLES
+    if _RTABLES is None:
+        from . import c16
+        _RTABLES = c16.build_tables()
+    return _RTABLES
+
+
 BASE_PROGS = [
     {"kind": "cls", "local": False, "fields": [{"ann": "ref", "to": "B"}]},
     {"kind": "cls", "local": True, "fields": [{"ann": "ref", "to": "B"}]},
@@ -633,13 +792,26 @@ class C20(Check):
         if tier == "thorough":
             for p in BASE_PROGS[:6]:
                 items.append({"op": "fwd", "prog": p, "threads": [[full_use(p)], [full_use(p)]], "points": ALL_POINTS, "mode": "all"})
+        # (c) lookups in a shared registry (a registration now and then: known finding)
+        nreg = {"quick": 25, "thorough": 120, "search": 30}[tier]
+        first_reg = len(items)
+        for i in range(nreg):
+            nt = 2 if (tier == "quick" or rng.random() < 0.6) else 3
+            items.append(gen_registry(rng, nt, with_reg=(i % 5 == 4)))
         Ls = self._probe(items)
         per_item = max(20, (n - 0) // max(1, len(items)))
         for idx, (it, L) in enumerate(zip(items, Ls)):
             if not L:
                 L = [40] * len(it["threads"])
             nt = len(it["threads"])
-            if idx < nbase:
+            if idx >= first_reg:
+                scheds = schedules_2(L, 2) if nt == 2 else []
+                if len(scheds) > 150:
+                    rng.shuffle(scheds)
+                    scheds = scheds[:150]
+                if nt > 2:
+                    scheds = [random_schedule(rng, L, nt, rng.randint(1, 3)) for _ in range(80)]
+            elif idx < nbase:
                 scheds = schedules_2(L, 2)
                 if tier == "quick" and idx >= 2:
                     one = [s for s in scheds if len(s) <= 2]
@@ -663,6 +835,15 @@ class C20(Check):
     def model_line(self, case, io=None):
         if not modelled(case) or not isinstance(io, dict) or "trace" not in io:
             return None
+        if case.get("op") == "registry":
+            w = dict(registry_tables())
+            w["shortcut"] = case.get("shortcut", [])
+            w["default"] = case.get("default")
+            norm = lambda r: dict({"custom": None, "meta": None, "attr": None, "classes": [], "sub": True}, **r)
+            return {"op": "registry", "world": w, "cache": case["cache"], "legacy": bool(os.environ.get("C20_LEGACY")),
+                    "init": [norm(r) for r in case.get("init", [])], "nclasses": NCLS,
+                    "threads": [[({"reg": norm(op["reg"])} if "reg" in op else op) for op in ops] for ops in case["threads"]],
+                    "trace": io["trace"]}
         return {"op": "fwd", "world": world_of(case["prog"]),
                 "threads": [[[[i, c.get("bad") == i] for i in c["use"]] for c in calls] for calls in case["threads"]],
                 "trace": io["trace"], "legacy": bool(os.environ.get("C20_LEGACY"))}
@@ -694,6 +875,19 @@ class C20(Check):
             k = mo["at"]
             return (f"control flow differs at event #{k}: the code executed {io['trace'][k]} where the model "
                     f"expects thread {io['trace'][k][0]} at {mo['model_label']}")
+        if case.get("op") == "registry":
+            got = [[o for o in (outs or []) if "reg" not in o] for outs in io["outs"]]
+            if mo["outs"] != got:
+                return f"lookup results differ: impl={got} model={mo['outs']}"
+            if any(p != "<fin>" for p in mo["pcs"]):
+                return f"model threads not finished after the trace: {mo['pcs']}"
+            if mo["post"] != io["post"]:
+                return f"state left behind differs: later lookups impl={io['post']} model={mo['post']}"
+            if not any("reg" in op for ops in case["threads"] for op in ops):
+                alone = [[a for a in al] for al in io["alone"]]
+                if mo["alone"] != alone:
+                    return f"sequential reference differs: impl alone={alone} spec={mo['alone']}"
+            return None
         want = [[enum_of(o, a) for o, a in zip(outs or [], al)] for outs, al in zip(io["outs"], io["alone"])]
         if mo["outs"] != want:
             return f"outcomes differ: impl={want} model={mo['outs']}"
@@ -709,6 +903,18 @@ class C20(Check):
             return f"case did not complete: {io}"
         if io.get("deadlock"):
             return "dead-lock: no thread can take a step (or the step budget ran out)"
+        if case.get("op") == "registry":
+            for t, outs in enumerate(io["outs"]):
+                if not isinstance(outs, list):
+                    return f"thread {t} died: {outs}"
+                for k, o in enumerate(outs):
+                    if "err" in o:
+                        return f"thread {t} operation {k} failed with {o['err']}"
+            if not io.get("lin"):
+                return (f"lookups returned {json.dumps(io['outs'])} and later lookups {json.dumps(io['post'])}: no order of "
+                        f"the operations run one after the other gives that (sequential: {json.dumps(io['seq'])}, "
+                        f"{json.dumps(io['seq_post'])})")
+            return None
         for t, (outs, al, sq) in enumerate(zip(io["outs"], io["alone"], io["seq"])):
             if not isinstance(outs, list):
                 return f"thread {t} died: {outs}"
@@ -722,6 +928,12 @@ class C20(Check):
         return None
 
     def classify(self, case, io, why):
+        # a *registration* racing with a lookup of the same registry (not a parse racing with a parse)
+        if case.get("op") == "registry" and "no order of the operations" in why:
+            regs = [t for t, ops in enumerate(case["threads"]) if any("reg" in op for op in ops)]
+            ress = [t for t, ops in enumerate(case["threads"]) if any("res" in op for op in ops)]
+            if regs and any(t not in regs or len(ress) > 1 for t in ress):
+                return "register-races-with-lookup"
         return None
 
     # ---- evidence --------------------------------------------------------------------------------
@@ -748,9 +960,12 @@ class C20(Check):
         deep = any(l.split(":")[0] in ("rfr", "res") and l not in ("rfr:chk", "res:cchk") for _, l in tr)
         if not deep:
             return None
-        return json.dumps([case["prog"], case["threads"], tr], sort_keys=True)
+        return json.dumps([case.get("prog") or [case.get("init"), case.get("cache")], case["threads"], tr], sort_keys=True)
 
     def distribution(self, case, io):
+        if case.get("op") == "registry":
+            hr = any("reg" in op for ops in case["threads"] for op in ops)
+            return f"registry/cache={case['cache']}/threads={len(case['threads'])}/{'with-register' if hr else 'lookups-only'}"
         p = case["prog"]
         anns = "+".join(f["ann"] + ("!" if f["to"] == "U" else "") for f in p["fields"])
         pre = "?"
